@@ -241,8 +241,10 @@ def hintsOf : List Item → List (List Nat)
 
 /-! ### What `removeWhitespace` is allowed to do, at item level (the abstract algorithm). -/
 
+/-- bytes that must stay separated from each other: every identifier byte (`isIdentChar`, incl. bytes >= 0x80)
+    and the hint magic -/
 def needsSpaceS (c : Nat) : Bool :=
-  (97 ≤ c && c ≤ 122) || (65 ≤ c && c ≤ 90) || (48 ≤ c && c ≤ 57) || c == 95 || c == 36 || c == 8
+  (97 ≤ c && c ≤ 122) || (65 ≤ c && c ≤ 90) || (48 ≤ c && c ≤ 57) || c == 95 || c == 36 || c == 8 || 128 ≤ c
 
 def Item.first : Item → Nat
   | .ws c => c
